@@ -13,7 +13,7 @@ ENCODES = [
     "spsdk.utils.spsdk_enum.SpsdkEnum.get_label", "spsdk.utils.spsdk_enum.SpsdkSoftEnum.from_tag",
 ]
 BOUNDS = {
-    "quick": "integers 0..2^136 for byte counts / to_bytes round trips (byte_cnt 0..20, both align modes, both "
+    "quick": "align: every number 0..2^64-1 for alignments 1,2,4,8,16,64,512,1024,4096,65536 (bit-precise); integers 0..2^136 for byte counts / to_bytes round trips (byte_cnt 0..20, both align modes, both "
              "endiannesses); swap16/32: every integer in [-2^40, 2^40]; byte strings of every length 0..9 with all "
              "bytes symbolic; alignments 0..17 (symbolic) x data lengths 0..9; extend_block target length -2..24; "
              "split sizes 1..10; BCD numbers: every integer in [-2^20, 2^20]; enum tags: every integer in "
@@ -24,7 +24,7 @@ BOUNDS = {
 OUTSIDE = ("reverse_bits (string formatting round trip inside CPython), load_hex_string file branch, negative "
            "inputs to get_bytes_cnt_of_int (non-terminating loop; recorded under known findings), the 'rand' pattern")
 STUBS = []
-MUST_REACH = ["bytes_cnt.*", "to_bytes.*", "swap16.*", "swap32.*", "rev_longs.*", "chg_end.*", "swap_bytes.*",
+MUST_REACH = ["align64.*", "bytes_cnt.*", "to_bytes.*", "swap16.*", "swap32.*", "rev_longs.*", "chg_end.*", "swap_bytes.*",
               "split.*", "extend.*", "align_block.*", "bcd.*", "enum.*", "to_bool.*", "hexstr.*"]
 OPTS = {"quick": {"case_timeout_s": 300}, "thorough": {"case_timeout_s": 1500, "max_paths": 200000}}
 
@@ -49,6 +49,8 @@ def cases(tier):
         for end in ("big", "little"):
             cs.append({"id": f"to_bytes/align2n={al}/{end}", "h": "to_bytes", "align": al, "end": end,
                        "maxbits": maxbits, "weight": 5})
+    for al in (1, 2, 4, 8, 16, 64, 512, 1024, 4096, 0x10000) + (() if q else (3, 10, 24)):
+        cs.append({"id": f"align64/al={al}", "h": "align64", "al": al})
     cs.append({"id": "swap16", "h": "swap16"})
     cs.append({"id": "swap32", "h": "swap32"})
     for n in range(0, nb + 1):
@@ -126,6 +128,18 @@ def h_to_bytes(env, c):
         env.prove(v >= (1 << (8 * (n - 4))), "to_bytes.minimal_aligned")
     env.prove(M.value_to_int(b) == v if c["end"] == "big" else True, "to_bytes.value_to_int_inverse")
     env.observe("b", b)
+
+
+def h_align64(env, c):
+    """align on 64-bit numbers with the alignments SPSDK actually uses (bit-precise, so that an implementation
+    going through float division is modelled with IEEE doubles)."""
+    n = env.int("number", 0, (1 << 64) - 1)
+    a = c["al"]
+    r = M.align(n, a)
+    env.prove(r >= n, "align64.not_below_input")
+    env.prove(r % a == 0, "align64.aligned")
+    env.prove(r - n < a, "align64.smallest")
+    env.observe("r", r)
 
 
 def h_swap16(env, c):
